@@ -1439,6 +1439,11 @@ func (s *State) checkASAInterfaces() error {
 				// If some ACL or crypto map is bound to this unmanaged
 				// interface, these commands must not accidently be deleted.
 				s.markNeeded(aIntf2cmd[name])
+				// Remove these commands from list of anchors. Otherwise,
+				// if such a command is the first one in list, all anchors
+				// would be taken as already processed and the commands
+				// from Netspoc would be transferred again on each run.
+				s.removeAnchors(aIntf2cmd[name])
 
 				if !shut {
 					errlog.Warning(
@@ -1458,6 +1463,21 @@ func (s *State) checkASAInterfaces() error {
 		}
 	}
 	return nil
+}
+
+// Remove commands bound to unmanaged interface from list of anchors
+// of device.
+func (s *State) removeAnchors(l []*cmd) {
+	for _, prefix := range []string{"access-group", "crypto map interface"} {
+		m := s.a.lookup[prefix]
+		al := slices.DeleteFunc(slices.Clone(m[""]),
+			func(c *cmd) bool { return slices.Contains(l, c) })
+		if len(al) != 0 {
+			m[""] = al
+		} else if m != nil {
+			delete(m, "")
+		}
+	}
 }
 
 func (s *State) checkIOSInterfaces() error {
